@@ -602,6 +602,9 @@ PROPS["C05"] = dict(
                "computed with the verified closure",
     technique="Coq model of the 3D sews + correspondence + extracted sew specification oracle",
     families=[
+        Family("core3-cells", "core3", r_core3("cells", 600, 10000, 12), 50, [(53, "sew3_spec", SEW3_CLASSES)]),
+        Family("core3-cellsx", "core3", lambda tier, seed: ["--mode", "cellsx", "--darts", {"quick": "40", "thorough": "80"}[tier]], 50,
+               [(53, "sew3_spec", SEW3_CLASSES)], exhaustive=True),
         Family("core3-hex", "core3", r_core3("hex", 400, 6000, 15), 50, [(53, "sew3_spec", SEW3_CLASSES)]),
         Family("core3-random", "core3", r_core3("random", 600, 10000, 25, ["--darts", "10"]), 50, [(53, "sew3_spec", SEW3_CLASSES)]),
     ],
@@ -753,7 +756,7 @@ def verdict(pid, tier, seed, cfg, pr, tr_msgs, results, t0):
         print("  oracle failure classes: %s" % dict(collections.Counter(o["cls"] for o in ofails)))
         if os.environ.get("HC_DEBUG"):
             for o in ofails[:int(os.environ["HC_DEBUG"])]:
-                print("   ", o["cls"], "|", o.get("case"), o.get("step"), "|", o.get("op"), "|", o.get("case_line", "")[:300])
+                print("   ", o["cls"], "|", o.get("case"), o.get("step"), "|", o.get("op"), "|", o.get("case_line", "")[-200:])
     print("%s %s: proofs %s (%d theorems), %d observations, %d diffs, %d oracle failures, %.0fs" % (
         pid, tier, "ok" if pr["ok"] else "BROKEN", len(pr["theorems"]), evals, len(diffs), len(ofails), time.time() - t0))
     return rc
